@@ -130,6 +130,26 @@ Theorem C11_assign_float : forall ops s0 a vals, wf s0 -> (a < 3)%nat ->
 Proof. exact f_assign_after. Qed.
 Print Assumptions C11_assign_float.
 
+(* las.xyz = value (the three columns of an (m, 3) array) is las.x = column 0, then las.y = column 1, then las.z = column 2,
+   stopping at the first error: the record takes the header's arrays first, so C11_assign_* apply to each axis *)
+Theorem C11_assign_xyz_exact : forall s vals,
+  q_step s (AssignXYZ vals) =
+  q_then_assign (q_then_assign (q_step s (Assign 0 (nth 0 vals []))) 1 (nth 1 vals [])) 2 (nth 2 vals []).
+Proof. exact q_assign_xyz_seq. Qed.
+Print Assumptions C11_assign_xyz_exact.
+
+Theorem C11_assign_xyz_float : forall s vals,
+  f_step s (AssignXYZ vals) =
+  f_then_assign (f_then_assign (f_step s (Assign 0 (nth 0 vals []))) 1 (nth 1 vals [])) 2 (nth 2 vals []).
+Proof. exact f_assign_xyz_seq. Qed.
+Print Assumptions C11_assign_xyz_float.
+
+Theorem C11_then_assign : forall T present store restore teqb d r a vals,
+  then_assign T present store restore teqb d r a vals =
+  match snd r with ONone => step T present store restore teqb d (fst r) (Assign a vals) | _ => r end.
+Proof. exact then_assign_def. Qed.
+Print Assumptions C11_then_assign.
+
 (* las.change_scaling after any history: on success record (and header, for the arrays given) refer to the new
    arrays and every integer is the rescaled one (rescaled_int); on overflow OverflowError and integers, record and
    header references are as before; arrays that existed keep their contents *)
@@ -194,6 +214,11 @@ Theorem C11_axes : gen_view_axes = [(0, 0, 0); (1, 1, 1); (2, 2, 2)]%nat /\ gen_
 Proof. exact (conj view_axes_table rescale_axes_table). Qed.
 Print Assumptions C11_axes.
 
+(* in the source, las.<axis> = v and las.xyz = v first make the record take the header's scale and offset arrays *)
+Theorem C11_assignment_syncs : gen_setattr_syncs = true /\ gen_xyz_syncs = true /\ gen_xyz_axes = [0; 1; 2]%nat.
+Proof. exact sync_tables. Qed.
+Print Assumptions C11_assignment_syncs.
+
 (* a concrete instance: header scale replaced (1e-2 -> 1e-3 as rationals), x assigned (the record takes the header's
    arrays), offset edited in place (seen through the alias), a write that rescales, a change_scaling that overflows,
    and the regression witness of the old unsound check in binary64 (v = 0x1.dcd650112e0bfp+29, s = 1e-9, o = 1e9) *)
@@ -206,6 +231,15 @@ Example C11_nonvacuous :
   /\ snd (q_step s (StreamInto [1 # 2; 1 # 100; 1 # 100]%Q [0; 0; 0]%Q))
      = OFile (mkfile [1 # 2; 1 # 100; 1 # 100]%Q [0; 0; 0]%Q [[4; -4]; [5; 6]; [7; 8]])
   /\ snd (q_step s (ChangeScaling (Some [1 # 1000000000; 1 # 100; 1 # 100]%Q) None)) = OErr EOverflow
+  (* laspy.create(); header.scales = ...; las.x = [..] grows the empty record, then las.write carries the header's scaling *)
+  /\ (let e0 := init Q [1 # 100; 1 # 100; 1 # 100]%Q [0; 0; 0]%Q [[]; []; []] in
+      let e := fst (q_run e0 [HReplaceS [1 # 1000; 1 # 1000; 1 # 1000]%Q; Assign 0%nat [(12345 # 10000); (-1 # 2000)]%Q]) in
+      ints e = [[1234; 0]; [0; 0]; [0; 0]]
+      /\ snd (q_step e Write) = OFile (mkfile [1 # 1000; 1 # 1000; 1 # 1000]%Q [0; 0; 0]%Q [[1234; 0]; [0; 0]; [0; 0]]))
+  (* las.xyz = [[1.2345, 2.3456, 3.4567]] after header.scales = 0.001: stored under the header's scaling *)
+  /\ (let e0 := init Q [1 # 100; 1 # 100; 1 # 100]%Q [0; 0; 0]%Q [[]; []; []] in
+      let e := fst (q_run e0 [HReplaceS [1 # 1000; 1 # 1000; 1 # 1000]%Q; AssignXYZ [[12345 # 10000]; [23456 # 10000]; [34567 # 10000]]%Q]) in
+      ints e = [[1234]; [2346]; [3457]] /\ r_s e = h_s e)
   /\ f_store (Some (Qmake 0x1dcd650112e0bf (Z.to_pos (2 ^ 23)))) (Some (Qmake 0x112e0be826d695 (Z.to_pos (2 ^ 82))))
              (Some (inject_Z 1000000000)) = Some 2147483706
   /\ f_store_checked (Some (Qmake 0x1dcd650112e0bf (Z.to_pos (2 ^ 23)))) (Some (Qmake 0x112e0be826d695 (Z.to_pos (2 ^ 82))))
